@@ -405,6 +405,7 @@ var dbProfiles = map[string]bool{"latest": true, "crash": true, "crash-sync": tr
 	"manifest": true, "fmv": true, "durable": true, "crashvalsep": true,
 	"iterpos": true, "snap": true, "iterview": true, "ibatch": true, "rangekey": true, "masking": true,
 	"commit": true, "concurrent": true,
+	"files": true, "iofault": true, "corrupt": true, "failover": true,
 	"levels": true, "close": true, "ingest": true, "efos": true, "checkpoint": true, "scaninternal": true, "maint": true, "valsep": true}
 
 // mixProfiles are the profiles generated by genMixed.
@@ -436,6 +437,8 @@ func mixProfile(profile string, g *gen) (mixW, bool) {
 		return mixW{write: 55, ingest: 5, excise: 2, flush: 7, compact: 5, scanInternal: 12, scan: 1, rangeKeys: g.r.IntN(2) == 0}, true
 	case "maint": // C14
 		return mixW{write: 40, ingest: 4, ingestExcise: 2, excise: 3, flush: 10, compact: 10, snap: 14, efos: 2, iter: 12, ratchet: 2, wait: 3, scan: 2, rangeKeys: g.r.IntN(2) == 0, longLived: true, iterOpsPerStep: 3}, true
+	case "files": // C39
+		return mixW{write: 45, ingest: 5, ingestExcise: 2, excise: 3, flush: 9, compact: 9, scan: 1, reopen: 5, crash: 2, iter: 16, snap: 4, efos: 2, wait: 2, rangeKeys: g.r.IntN(2) == 0, longLived: true, iterOpsPerStep: 2}, true
 	case "valsep": // C44
 		return mixW{write: 55, ingest: 4, flush: 10, compact: 10, snap: 8, iter: 8, scan: 3, reopen: 2, wait: 2, longLived: true, iterOpsPerStep: 4}, true
 	}
